@@ -153,6 +153,16 @@ PROPS = {
             "that a torn tail (a record written in part) is skipped cleanly by the loader rests on LogIterator::next mapping UnexpectedEof to end-of-file (verified in unit log: C02.iter.*) and on bincode's encoding being self-delimiting (T11)",
         ],
     },
+    "C13": {
+        "units": ["store"], "label_prefixes": ["C13.", "C19.merge.exact", "C01.merge.frame"], "level": "proof",
+        "trusted": ["T1", "T4", "T8", "T11", "T12", "T13", "T13s", "TLOG", "TARC", "RW", "DERIVE"],
+        "assumptions": [
+            "sizes are sums of record lengths over the record sequence of a file (fsize), over a list of files (sum_size) and over the id range of the merge outputs (range_size); dead bytes are the ground truth of C19 (dead_b: records the key directory does not point at). No set cardinalities: the selected files are enumerated by the BTreeSet's ascending duplicate-free listing (axiom_btreeset_seq)",
+            "proved on Writer::merge (C13.merge.reclaims_exactly_dead): there is a duplicate-free list `ids` of exactly the removed files such that the created files are exactly the outputs lo..=hi plus the new, EMPTY active file, and  size(outputs) + dead_bytes(ids, key directory at start) == size(ids). The copy loop carries the invariant `bytes written to the outputs + dead bytes at start == dead bytes now` (every copied entry re-points one key, which turns exactly its old record into dead bytes: lemma_sum_dead_change over C19's lemma_kd_change); at the end nothing in the selected files is live. With C13.merge.old_files_untouched_or_removed (every other file is byte-for-byte unchanged) the store shrinks by exactly the dead bytes of the selected files: it never grows (theorem_merge_never_grows, C13.never_grows), keeps one record per live key of those files and nothing else, and a pass over files without dead bytes reproduces their size (fixpoint)",
+            "'exactly as large as a fresh store holding only the live pairs' is proved in the form 'size = size before - dead bytes, no dead record left in the outputs (C19.merge.exact: outputs all live)'; the last step to a sum over KEYS (each live key once, enc_len depends only on the pair: T11) is the exchange of a sum over records for a sum over keys and is not machine-checked -- it is checked on the real code by the bounded search (after every merge with all files eligible the data files are compared with a freshly written store)",
+            "files without statistics (empty files) are never selected and stay; they have size 0. The tombstone finding (C05) does not affect sizes",
+        ],
+    },
     "C09": {
         "units": ["store"], "label_prefixes": ["C09."], "level": "proof",
         "trusted": ["T1", "T4", "T8", "T11", "T12", "T12S", "T13", "T13s", "TLOG", "TARC", "RW", "DERIVE"],
